@@ -9,4 +9,6 @@ require (
 	pgregory.net/rapid v1.3.0
 )
 
+require go.uber.org/automaxprocs v1.5.2 // indirect
+
 replace github.com/TarsCloud/TarsGo => /repo
